@@ -21,6 +21,8 @@ type KeyRef struct {
 type Ev struct {
 	Op string `json:"op"` // create delete req adv probe
 	S  int    `json:"s"`  // client slot: REST session / gRPC connection
+	// T (create, mode "mixed"): the transport of the client in this slot: rest | grpc
+	T string `json:"t,omitempty"`
 	// Ck: which cookie the exchange carries: own (slot S's cookie, whatever its state) | none | unknown | empty | mangled
 	Ck string `json:"ck,omitempty"`
 	// Q: try unl ren noop
@@ -48,7 +50,9 @@ type Cfg struct {
 
 type History struct {
 	ID     string `json:"id"`
-	Mode   string `json:"mode"` // c15: REST and gRPC side by side; c20: REST only, adversarial cookies and gaps
+	// c15: REST and gRPC side by side, each on its own server; c20: REST only, adversarial cookies and gaps;
+	// mixed: REST sessions and gRPC connections on ONE server (C15_mixed)
+	Mode string `json:"mode"`
 	Cfg    Cfg    `json:"cfg"`
 	Events []Ev   `json:"events"`
 }
